@@ -15,6 +15,25 @@ use std::io::{BufRead, BufReader, BufWriter, Write};
 #[global_allocator]
 static A: alloc::CountingAlloc = alloc::CountingAlloc;
 
+/// Records how far the run got (line / segment number), so that the driver of
+/// this process can tell which operation was executing if the code under test
+/// brings the process down (segfault, sanitizer abort, resource limit).
+struct Progress(Option<std::fs::File>);
+
+impl Progress {
+    fn new(args: &[String]) -> Progress {
+        Progress(arg(args, "--progress").map(|p| std::fs::File::create(p).unwrap()))
+    }
+
+    fn at(&mut self, n: u64) {
+        use std::io::{Seek, SeekFrom};
+        if let Some(f) = self.0.as_mut() {
+            let _ = f.seek(SeekFrom::Start(0));
+            let _ = write!(f, "{:<20}", n);
+        }
+    }
+}
+
 fn arg(args: &[String], name: &str) -> Option<String> {
     args.iter().position(|a| a == name).and_then(|i| args.get(i + 1).cloned())
 }
@@ -44,7 +63,6 @@ fn facets(ev: &Value, ex: &Value) -> Vec<(String, Value, Value, bool)> {
 
     eq("panic", json!(expect_panic), json!(ev["panic"]["kind"] != "none"));
     eq("alive", t["alive"].clone(), st["alive"].clone());
-    eq("trav", json!(true), st["trav"].clone());
 
     let exp_rows: Vec<Value> = t["ord"].as_array().cloned().unwrap_or_default();
     let act_rows: Vec<Value> = st["ord"].as_array().cloned().unwrap_or_default();
@@ -103,36 +121,7 @@ fn facets(ev: &Value, ex: &Value) -> Vec<(String, Value, Value, bool)> {
             eq("marks", norm(&json!(marks)), norm(&st["marks"]));
         }
 
-        // (b) the real state against itself
-        let es: Vec<Value> = act_rows.iter().map(|r| r[3].clone()).collect();
-        eq("bound", json!(true), json!(dec(&st["cur"]) <= dec(&st["max"])));
-        eq("es_eq_rec", json!(es), json!(recs));
-        eq("sum_rec", st["cur"].clone(),
-           json!(recs.iter().map(|v| v.as_i64().unwrap_or(0)).sum::<i64>()));
-        eq("len", json!(act_rows.len()), st["len"].clone());
-        eq("is_empty", json!(act_rows.is_empty()), st["is_empty"].clone());
-        let mut rev = act_keys.clone();
-        rev.reverse();
-        eq("mirror", json!(rev), st["rev"].clone());
-        eq("keysiter", json!(act_keys), st["keys"].clone());
-        eq("vals_ok", json!(true), st["vals_ok"].clone());
-        eq("lru", act_keys.first().cloned().unwrap_or(json!(0)), st["lru"].clone());
-        eq("mru", act_keys.last().cloned().unwrap_or(json!(0)), st["mru"].clone());
-        let fwd_buckets: Vec<Value> = hook["fwd"].as_array()
-            .map(|v| v.iter().map(|n| n[0].clone()).collect()).unwrap_or_default();
-        eq("ptr_iter", json!(fwd_buckets), st["nb"].clone());
-        eq("ptr_peek", json!(fwd_buckets), st["pb"].clone());
-        eq("dead", json!(0), st["dead"].clone());
-        eq("hook_cur", st["cur"].clone(), hook["cur"].clone());
-        eq("nodup", json!(act_keys.len()), json!(sorted(&json!(act_keys)).as_array()
-            .map(|v| { let mut u = v.clone(); u.dedup(); u.len() }).unwrap_or(0)));
-        let probe: Vec<Value> = ev["probe"].as_array().cloned().unwrap_or_default();
-        let exp_probe: Vec<Value> = probe.iter().map(|p| {
-            let f = act_keys.iter().any(|k| *k == p[0]) as i64;
-            json!([p[0], f, f, f, f])
-        }).collect();
-        eq("probe", json!(exp_probe), json!(probe));
-        eq("probe_ro", ev["fp"].clone(), ev["fp2"].clone());
+        // (b) the real state against itself: see self_facets (appended below)
     }
 
     if !expect_panic && same_keyset {
@@ -174,6 +163,11 @@ fn facets(ev: &Value, ex: &Value) -> Vec<(String, Value, Value, bool)> {
     }
 
     out.push(("hashes".to_string(), ex["hashmax"].clone(), ev["counts"]["hash"].clone(), true));
+
+    for (f, e, a) in self_facets(ev) {
+        out.push((f, e, a, false));
+    }
+
     out
 }
 
@@ -193,12 +187,14 @@ fn run_segments(args: &[String], cfg: &Config) {
     let mut executed = 0u64;
     let mut per_kind: std::collections::BTreeMap<String, u64> = Default::default();
     let mut per_op: std::collections::BTreeMap<String, u64> = Default::default();
+    let mut progress = Progress::new(args);
 
     for line in reader.lines() {
         let line = line.unwrap();
         if line.trim().is_empty() { continue; }
         let seg: Value = serde_json::from_str(&line).expect("bad segment");
         segments += 1;
+        progress.at(segments);
         let prefix: Vec<Value> = seg["prefix"].as_array().cloned().unwrap_or_default();
         let suffix: Vec<Value> = seg["suffix"].as_array().cloned().unwrap_or_default();
         let sweep: Vec<String> = seg["sweep"].as_array()
@@ -296,7 +292,8 @@ fn main() {
                      else { KeyForm::Owned },
             universe: arg(&args, "--universe").and_then(|s| s.parse().ok()).unwrap_or(4),
             seed: arg(&args, "--seed").and_then(|s| s.parse().ok()).unwrap_or(0),
-            full_hook: true
+            full_hook: true,
+            project_every: 1
         };
         run_segments(&args, &cfg);
         return;
@@ -309,7 +306,8 @@ fn main() {
                  else { KeyForm::Owned },
         universe: arg(&args, "--universe").and_then(|s| s.parse().ok()).unwrap_or(4),
         seed: arg(&args, "--seed").and_then(|s| s.parse().ok()).unwrap_or(0),
-        full_hook: true
+        full_hook: true,
+        project_every: 1
     };
     let compare = args.iter().any(|a| a == "--compare");
     let stop_after: u64 = arg(&args, "--stop-after").and_then(|s| s.parse().ok()).unwrap_or(u64::MAX);
@@ -334,10 +332,12 @@ fn main() {
     let mut in_sync = true;
     let mut skipped = 0u64;
     let mut broken = false;
+    let mut progress = Progress::new(&args);
 
     for line in reader.lines() {
         let line = line.unwrap();
         line_no += 1;
+        progress.at(line_no);
 
         if line.trim().is_empty() {
             continue;
